@@ -524,6 +524,15 @@ def run_real(case):
         else:
             user = __import__('pwd').getpwuid(os.getuid()).pw_name
             ident = user if case.get('ident') == 'name' else str(os.getuid())
+            if case.get('prefill'):
+                # the keyring already holds cookies of earlier exchanges: expired ones (older than the cookie lifetime),
+                # live ones, one from a clock slightly ahead - none of them is ours, all of them are legal content
+                now = int(__import__('time').time())
+                lines = {'stale': [(50, now - 100)], 'fresh': [(7, now - 5)], 'both': [(3, now - 3600), (9, now - 1), (4, now + 2)]}
+                with open(os.path.join(scratch, 'org_verif_ctx'), 'wb') as f:
+                    for cid_, t_ in lines[case['prefill']]:
+                        f.write(b'%d %d %s\n' % (cid_, t_, binascii.hexlify(b'old-cookie-%d' % cid_)))
+                os.chmod(os.path.join(scratch, 'org_verif_ctx'), 0o600)
             r = _exchange(srv, b'AUTH DBUS_COOKIE_SHA1 ' + binascii.hexlify(ident.encode()))
             if not r or r[0][0] != 'DATA':
                 out.append(Disc('real.cookie.no-challenge', 'server answered %r' % (r,)))
@@ -711,7 +720,8 @@ def real_case(draw, tier):
                 'initial': draw(st.booleans())}
     return {'mech': mech, 'variant': draw(st.sampled_from(COOKIE_VARIANTS)),
             'ident': draw(st.sampled_from(['name', 'uid'])),
-            'nonce': draw(st.text(alphabet='abcdef0123', min_size=1, max_size=8)), 'creds': 'none'}
+            'nonce': draw(st.text(alphabet='abcdef0123', min_size=1, max_size=8)), 'creds': 'none',
+            'prefill': draw(st.sampled_from([None, None, 'stale', 'fresh', 'both']))}
 
 
 def classify_real(case):
